@@ -93,10 +93,26 @@ def fresh_expr(fi: FuncInfo, arg: ast.AST) -> bool:
 QUERY_EXEMPT = {"__new__", "clear_cache"}
 
 
+def _holds_only_locks(m: SharedModel, cc: str) -> bool:
+    stores = []
+    for fi in m.repo.all_funcs():
+        for node in walk_no_nested(fi.node):
+            if isinstance(node, ast.Assign):
+                for t in node.targets:
+                    if isinstance(t, ast.Subscript) and isinstance(t.value, ast.Attribute) and t.value.attr == cc:
+                        stores.append(node.value)
+            if isinstance(node, ast.Call) and isinstance(node.func, ast.Attribute) and node.func.attr == "setdefault" and isinstance(node.func.value, ast.Attribute) and node.func.value.attr == cc and len(node.args) == 2:
+                stores.append(node.args[1])
+    return bool(stores) and all(m.is_lock_expr(v) is False for v in stores)
+
+
 def rule_p4(ctx: Ctx, m: SharedModel) -> None:
     repo = ctx.repo
     # identity map accesses
     for cc in m.class_containers:
+        if _holds_only_locks(m, cc):
+            ctx.note(f"Av.{cc} only ever receives lock objects: not an instance map (judged by C07)")
+            continue
         for fi in repo.all_funcs():
             for node in walk_no_nested(fi.node):
                 if isinstance(node, ast.Attribute) and node.attr == cc:
@@ -199,7 +215,21 @@ def rule_s1(ctx: Ctx, m: SharedModel) -> None:
         ctx.run(check_skeleton, ctx, "C02-S1", fi, specs, what)
     ctx.run(check_all, ctx, repo.need_method("Av", "_all"))
     # no query method reads the level cache directly
-    ensure_family = {s.fi.where for s in m.sites if s.kind in (FIELD, ELEM, VAL)} | set(m.lock_held) | set(m.acquirers())
+    # the ensure family, defined by the call graph alone (no reference to the lock, which is C07's subject): the writers of
+    # the level cache, their private callers (_ensure_level, _get_level), and helpers called only from inside the family
+    ensure_family = {s.fi.where for s in m.sites if s.kind in (FIELD, ELEM, VAL)}
+    changed = True
+    while changed:
+        changed = False
+        for fi in m.funcs:
+            if fi.where in ensure_family:
+                continue
+            callers = [c for c, _n, _l in m.callers.get(fi.where, [])]
+            calls_family = any(fi is c for w in ensure_family for c, _n, _l in m.callers.get(w, []))
+            private = fi.parent is None and fi.name.startswith("_") and not fi.name.startswith("__")
+            if (private and calls_family) or (fi.parent is not None and fi.parent.where in ensure_family) or (callers and all(c.where in ensure_family for c in callers)):
+                ensure_family.add(fi.where)
+                changed = True
     for fi in m.funcs:
         if fi.where in ensure_family:
             continue
